@@ -80,6 +80,24 @@ CLAIMED = {
         note=TRUST + ". Documents are 6 sample variants with seeded non-ASCII values, not the whole C01 space; XML texts "
              "compared by canonical form, RDF texts by graph isomorphism.",
         ref="3 C16"),
+    "C01": dict(
+        text="(A)+(B) MC_Ser: documents built through the API — every record kind x every subset of optional formal "
+             "arguments x identified/anonymous, every attribute class x value kind (incl. multi-valued, qualified names "
+             "and literal datatypes under unregistered prefixes), repeated identifiers, bundles, and namespace histories "
+             "on document and bundle (clashing prefixes, defaults at both levels) — each written as PROV-JSON under the "
+             "json.dump option sets and read back; (C) TLC compares the strict projections as bags per container "
+             "(URI level, kind aware).",
+        note=TRUST + ". No TLA+ transcription of the JSON encoder/decoder yet: the model-level part is the document "
+             "space and the clauses; string escaping / number formatting are sampled through seeded value pools. "
+             "Known finding KF-C03-shadow excluded by predicate.",
+        ref="3 C01"),
+    "C10": dict(
+        text="The PROV-JSON text the library writes for every MC_Ser document is lexed by stdlib json and read by "
+             "SpecJson.tla, a reader written in TLA+ from the PROV-JSON submission (own key tables, no code shared with "
+             "the library); TLC checks structural well-formedness (WfJSON) and that the reader recovers the source "
+             "content (bags, URI level).  PROV-XML part: see C02/SpecXml when present.",
+        note=TRUST + ". The reader is as good as my reading of the specification. XML half not yet claimed here.",
+        ref="3 C10"),
 }
 for _c in CLAIMED.values():
     _c.setdefault("technique", TECH)
